@@ -15,6 +15,14 @@ Ev(e) == l <= Len(TraceLog) /\ TraceLog[l].ev = e /\ l' = l + 1
 T == TraceLog[l]
 
 TInit == Init /\ l = 1 /\ pendA = <<>> /\ seenCred = [s \in Streams |-> 0] /\ seenCredC = 0 /\ TLCSet(1, 0)
+Reset == /\ Ev("reset")
+  /\ q' = [s \in Streams |-> <<>>] /\ sw' = [s \in Streams |-> 0] /\ bufs' = {}
+  /\ cw' = C0 /\ iw' = W0 /\ mf' = MF0 /\ out' = <<>> /\ cont' = NoCont /\ ctl' = <<>>
+  /\ gS' = [s \in Streams |-> W0] /\ gC' = C0 /\ bad' = FALSE /\ badMF' = FALSE
+  /\ aFC' = [s \in Streams |-> 0] /\ aFCc' = 0 /\ aCred' = [s \in Streams |-> 0] /\ aCredC' = 0
+  /\ sentLog' = [s \in Streams |-> <<>>] /\ dlvLog' = [s \in Streams |-> <<>>]
+  /\ nSend' = 0 /\ nCtl' = 0 /\ hcount' = 0 /\ encOrder' = <<>> /\ dlvOrder' = <<>>
+  /\ pendA' = <<>> /\ seenCred' = [s \in Streams |-> 0] /\ seenCredC' = 0
 
 \* --- logged: A hands a frame to the wire
 LogA == /\ (Ev("a_data") \/ Ev("a_headers") \/ Ev("a_cont") \/ Ev("a_rst"))
@@ -51,8 +59,8 @@ Silent == /\ UNCHANGED <<l, seenCred, seenCredC>>
           /\ \/ ProcA
              \/ (ApplyCtl /\ UNCHANGED pendA)
 
-TNext == LogA \/ LogB \/ LogRecv \/ LogCredit \/ LogQuiet \/ Silent
+TNext == Reset \/ LogA \/ LogB \/ LogRecv \/ LogCredit \/ LogQuiet \/ Silent
 TSpec == TInit /\ [][TNext]_tvars
 HWM == IF l > TLCGet(1) THEN TLCSet(1, l) ELSE TRUE
-Accepted == PrintT(<<"consumed lines", TLCGet(1) - 1, "of", Len(TraceLog)>>) /\ TLCGet(1) = Len(TraceLog) + 1
+Accepted == PrintT(<<"HWM", TLCGet(1) - 1, "of", Len(TraceLog)>>) /\ TLCGet(1) = Len(TraceLog) + 1
 ==============================================================================
